@@ -9,6 +9,16 @@ type Job struct {
 	Key    string // pkg.Func
 	Mode   string // hostile | wellbehaved
 	Driver string // "" (contracts) | sim | rel | frames | tables | alloc
+	Sim    bool   // prove against the master JSON transducer (@sim clauses active)
+}
+
+func simJobs(keys ...string) []Job {
+	out := hostile(keys...)
+	for i := range out {
+		out[i].Sim = true
+		out[i].Driver = "sim"
+	}
+	return out
 }
 
 type Property struct {
@@ -101,6 +111,22 @@ func properties() map[string]*Property {
 			"each Read function is a deterministic function of the bytes of data (its result functions rok/rval/rp are well defined); what those results are is the subject of C04/C05/C06/C13",
 			"DecodeString: equality of the stored string with the reader's result is not expressible (strings are not scalars in the VC language); offset, error and target-unchanged parts are proved",
 		},
+	}
+	specAssume := []string{
+		"the master JSON transducer (cmd/rjv/jsonspec.go, written from RFC 8259 + nesting limit 10000) is the specification; its agreement with encoding/json (Valid and streaming-decoder offsets) was checked on 11.3M enumerated strings and at the depth limit (go test ./cmd/rjv), which is a bounded validation of the spec, not a proof about encoding/json",
+		"M-run: the absorption lemma (Dead/Done are absorbing) is used through its instances; its base and step cases are discharged as obligations spec/absorb/*",
+	}
+	ps["C01"] = &Property{ID: "C01", Level: "proof",
+		Jobs:   append(simJobs("skipValue", "skipFloatDec", "skipFloatExp", "Valid"), hostile("countWhitespace")...),
+		Labels: []string{"C01"},
+		Extra:  []string{"spec-lemmas"},
+		Assume: append([]string{"independence from the buffer: the postcondition of Valid mentions data only; every stack content is admitted at entry (the stack parameter is unconstrained), see also C14"}, specAssume...),
+	}
+	ps["C02"] = &Property{ID: "C02", Level: "proof",
+		Jobs:   simJobs("skipValue", "skipFloatDec", "skipFloatExp", "SkipValue"),
+		Labels: []string{"C02"},
+		Extra:  []string{"spec-lemmas"},
+		Assume: specAssume,
 	}
 	return ps
 }
